@@ -58,8 +58,26 @@ ANCHORS = [("canopen.network", "Network.__init__"), ("canopen.network", "Network
 
 logging.disable(logging.CRITICAL)
 
+CASE_TIMEOUT = 30            # vlib/core.py: a case that does not come back becomes Err(other, "no result within N s")
+REENTRY_TIMEOUT = 3.0        # a scripted operation inside a callback that does not come back (same thread!) = blocked
+
 KINDS = ("sdo_resp", "heartbeat", "emcy", "nmt", "sdo_req")
 _LOG = []
+_CUR = {"world": None, "scripts": {}}
+
+
+class _Blocked(BaseException):
+    """A scripted operation performed inside a callback did not return (deadlock on the dispatching thread)."""
+
+
+def _record(hv, can_id, data, timestamp):
+    """Log one invocation; a user callback with a script then performs its operation on the network
+    (re-entrant callback), swallowing the operation's own exception like an application would."""
+    _LOG.append((hv, can_id, bytes(data), timestamp))
+    if hv[0] == 0:
+        op = _CUR["scripts"].get(hv[1])
+        if op is not None and _CUR["world"] is not None:
+            _CUR["world"].do_script(op)
 _PATCHED = [False]
 
 
@@ -112,7 +130,7 @@ class Recorder:
         self.hv = hv
 
     def on_frame(self, can_id, data, timestamp):
-        _LOG.append((self.hv, can_id, bytes(data), timestamp))
+        _record(self.hv, can_id, data, timestamp)
 
 
 class ListRec(list):
@@ -124,7 +142,7 @@ class ListRec(list):
 
     def __call__(self, can_id, data, timestamp):
         self.append((can_id, bytes(data), timestamp))
-        _LOG.append((self._hv, can_id, bytes(data), timestamp))
+        _record(self._hv, can_id, data, timestamp)
 
     def __eq__(self, other): return self is other
     def __ne__(self, other): return self is not other
@@ -139,7 +157,7 @@ class BoolRec:
 
     def __call__(self, can_id, data, timestamp):
         self.count += 1
-        _LOG.append((self._hv, can_id, bytes(data), timestamp))
+        _record(self._hv, can_id, data, timestamp)
 
     def __bool__(self): return self.count > 0
 
@@ -171,7 +189,7 @@ class FakeBus:
 
 def _mkcb(hv):
     def cb(can_id, data, timestamp):
-        _LOG.append((hv, can_id, bytes(data), timestamp))
+        _record(hv, can_id, data, timestamp)
     cb._hv = hv
     return cb
 
@@ -202,6 +220,29 @@ class World:
                             Recorder([0, u]) if u % 3 == 0 else _mkcb([0, u]))
         r = self.user[u]
         return r.on_frame if isinstance(r, Recorder) else r
+
+    def do_script(self, op):
+        """One operation from inside a callback, on the dispatching thread, under a watchdog."""
+        import signal, threading, time
+        def run():
+            try:
+                self.do(op)
+            except Exception:
+                pass
+        if threading.current_thread() is not threading.main_thread() or not hasattr(signal, "setitimer"):
+            return run()
+        def handler(signum, frame):
+            raise _Blocked()
+        oldh = signal.signal(signal.SIGALRM, handler)
+        rem, _ = signal.setitimer(signal.ITIMER_REAL, REENTRY_TIMEOUT)
+        t0 = time.monotonic()
+        try:
+            run()
+        finally:
+            signal.setitimer(signal.ITIMER_REAL, 0)
+            signal.signal(signal.SIGALRM, oldh)
+            if rem > 0:
+                signal.setitimer(signal.ITIMER_REAL, max(0.05, rem - (time.monotonic() - t0)))
 
     def close(self):
         if self.connected:
@@ -332,9 +373,11 @@ def frame_obs(m):
 
 def impl(c):
     k = c["kind"]
-    if k == "hist":
+    if k in ("hist", "reent"):
         def f():
             w = World()
+            _CUR["world"] = w
+            _CUR["scripts"] = {int(u): op for u, op in c.get("scripts", [])} if k == "reent" else {}
             try:
                 out = []
                 for op in c["ops"]:
@@ -346,7 +389,12 @@ def impl(c):
                         out.append([[hv, cid, data, _canon_ts(ts)] for hv, cid, data, ts in _LOG])
                 out.append(w.dump())
                 return out
+            except _Blocked:
+                from vlib.obs import E_OTHER
+                return Err(E_OTHER, f"no result within {REENTRY_TIMEOUT} s: an operation performed inside a callback "
+                                    f"never returned (step {len(out)} {c['ops'][len(out)]})")
             finally:
+                _CUR["world"], _CUR["scripts"] = None, {}
                 w.close()
         return guarded(f)
     if k == "scan":
@@ -427,59 +475,120 @@ def _check_delivery(ref, i, op, got, c, data, ts):
     return ("delivery_mismatch", f"step {i} {op}: delivered to {hs}, subscribed {[x[0] for x in exp]}")
 
 
+STOP = object()
+
+# Network.notify walks the live list object by index, so a callback that removes a subscriber of the
+# SAME id during the dispatch makes the element that slides into its slot be skipped (notes/C10.md,
+# Round 5: candidate defect).  False: "every callback subscribed before the frame and not removed
+# during the dispatch is invoked" is demanded only for dispatches in which nothing was removed from
+# that id's list; True: always.
+JUDGE_REENTRANT_SKIP = False
+
+
+def _ref_apply(ref, op):
+    """Apply a non-frame operation to the reference.  Returns True (must succeed), None (either
+    outcome), or STOP (the property does not say what happens next)."""
+    k = op[0]
+    if k == "sub":
+        ref.subscribe(op[1], ("u", op[2]))
+        return True
+    if k == "unsub":
+        r = ref.unsubscribe_all(op[1]) if op[2] is None else ref.unsubscribe(op[1], _href(op[2]))
+        return None if r is UNSPECIFIED else r
+    if k == "add":
+        r = ref.add_node((op[1][0], op[1][1], bool(op[1][2])))
+        return STOP if r is UNSPECIFIED else r
+    if k == "del":
+        r = ref.remove_node(op[1])
+        if r is UNSPECIFIED:
+            return STOP if op[1] in ref.nodes else None   # removing a node that is not there: either outcome
+        return r
+    if k == "reset":
+        ref.found = []
+        return True
+    if k == "add_sdo":
+        r = ref.add_sdo((op[1][0], op[1][1], bool(op[1][2])), op[3])
+        return None if r is UNSPECIFIED else r
+    if k == "reassoc":
+        # attaching an attached node again must not change who receives what, except that a
+        # callback of it somebody had unsubscribed is subscribed again
+        obj = (op[1][0], op[1][1], bool(op[1][2]))
+        if ref.registered(obj):
+            for cid, h in ref.subscriptions_of(obj):
+                ref.subscribe(cid, h)
+        return True
+    if k in ("connect", "disconnect"):
+        return True                # the bus connection has no bearing on who is subscribed
+    raise ValueError(op)
+
+
+def _check_delivery_re(ref, i, op, got, c, data, ts, scripts):
+    """A frame whose callbacks may operate on the network while they are invoked."""
+    if isinstance(got, Err):
+        return ("dispatch_raised", f"step {i} {op}: {got!r}")
+    registered0 = dict(ref.nodes)
+    before = [x[0] for x in ref.deliver(c, bytes(data), ts)]      # also updates the reference scanner
+    obs = [(_h(hv), cid, bytes(d), t) for hv, cid, d, t in got]
+    hs = [x[0] for x in obs]
+    for h, cid, d, t in obs:
+        if (cid, d, t) != (c, bytes(data), ts):
+            return ("delivery_arguments", f"step {i} {op}: callbacks got {obs}")
+    added, removed = set(), set()
+    for h in hs:
+        if h not in before and h not in added:
+            if h[0] == "n" and registered0.get(h[1][1]) != h[1]:
+                return ("removed_node_handler_invoked", f"step {i} {op}: callback {h} of a node object that is not registered saw the frame")
+            return ("delivery_mismatch", f"step {i} {op}: {h} invoked, but it was neither subscribed before the frame "
+                                         f"{before} nor subscribed during its dispatch")
+        sop = scripts.get(h[1]) if h[0] == "u" else None
+        if sop is not None:
+            l0 = ref.subscribers(c)
+            if _ref_apply(ref, sop) is STOP:
+                return STOP
+            l1 = ref.subscribers(c)
+            removed |= set(l0) - set(l1)
+            added |= set(l1) - set(l0)
+    # twice in one dispatch: only explicable (live list) for a callback that was unsubscribed and
+    # subscribed again while the frame was being dispatched
+    dups = sorted({repr(h) for h in hs if hs.count(h) > 1 and (JUDGE_REENTRANT_SKIP or h not in removed)})
+    if dups:
+        return ("duplicate_delivery", f"step {i} {op}: {dups} invoked more than once; delivered {hs}, subscribed {before}")
+    missing = [h for h in before if h not in hs and h not in removed]
+    if missing and (JUDGE_REENTRANT_SKIP or not removed):
+        return ("delivery_mismatch", f"step {i} {op}: {missing} subscribed before the frame and not removed during its "
+                                     f"dispatch, but not invoked; delivered {hs}")
+    return None
+
+
 def oracle_hist(c, o):
     if isinstance(o, Err):
+        if "no result within" in (o.text or ""):
+            return ("dispatch_blocked", o.text)
         return ("history_crashed", repr(o))
     ops = c["ops"]
+    scripts = {int(u): op for u, op in c.get("scripts", [])} if c["kind"] == "reent" else {}
     if len(o) != len(ops) + 1:
         return ("history_crashed", f"{len(o)} observations for {len(ops)} operations")
     ref = RefNet()
     for i, (op, got) in enumerate(zip(ops, o)):
         k = op[0]
-        must = None
-        if k == "sub":
-            ref.subscribe(op[1], ("u", op[2]))
-            must = True
-        elif k == "unsub":
-            must = ref.unsubscribe_all(op[1]) if op[2] is None else ref.unsubscribe(op[1], _href(op[2]))
-        elif k == "add":
-            must = ref.add_node((op[1][0], op[1][1], bool(op[1][2])))
-            if must is UNSPECIFIED:
-                return None            # the property does not say what happens next
-        elif k == "del":
-            must = ref.remove_node(op[1])
-            if must is UNSPECIFIED:
-                if op[1] in ref.nodes:
-                    return None
-                must = None            # removing a node that is not there: either outcome, no change
-        elif k == "notify":
-            f = _check_delivery(ref, i, op, got, op[1], op[2], op[3])
+        if k in ("notify", "recv"):
+            if k == "notify":
+                cid, data, ts = op[1], op[2], op[3]
+            else:
+                _, cid, data, ts, remote, ext, err = op
+                if remote or err:
+                    if got != []:
+                        return ("error_or_remote_frame_dispatched", f"step {i} {op}: {got!r}")
+                    continue
+            f = (_check_delivery_re(ref, i, op, got, cid, data, ts, scripts) if scripts else
+                 _check_delivery(ref, i, op, got, cid, data, ts))
+            if f is STOP: return None
             if f: return f
             continue
-        elif k == "recv":
-            _, cid, data, ts, remote, ext, err = op
-            if remote or err:
-                if got != []:
-                    return ("error_or_remote_frame_dispatched", f"step {i} {op}: {got!r}")
-            else:
-                f = _check_delivery(ref, i, op, got, cid, data, ts)
-                if f: return f
-            continue
-        elif k == "reset":
-            ref.found = []
-            must = True
-        elif k == "add_sdo":
-            must = ref.add_sdo((op[1][0], op[1][1], bool(op[1][2])), op[3])
-        elif k == "reassoc":
-            # attaching an attached node again must not change who receives what, except that a
-            # callback of it somebody had unsubscribed is subscribed again
-            obj = (op[1][0], op[1][1], bool(op[1][2]))
-            if ref.registered(obj):
-                for cid, h in ref.subscriptions_of(obj):
-                    ref.subscribe(cid, h)
-            must = True
-        elif k in ("connect", "disconnect"):
-            must = True                # the bus connection has no bearing on who is subscribed
+        must = _ref_apply(ref, op)
+        if must is STOP:
+            return None            # the property does not say what happens next
         if must is True and got != []:
             return ("operation_failed" if isinstance(got, Err) else "spurious_delivery", f"step {i} {op}: {got!r}")
         if not isinstance(got, Err) and got != []:
@@ -509,7 +618,7 @@ def _frame_fail(c, fr, what):
 
 def oracle(c, o):
     k = c["kind"]
-    if k == "hist":
+    if k in ("hist", "reent"):
         return oracle_hist(c, o)
     if k == "scan":
         exp = ref_scan(c["ids"])
@@ -590,6 +699,9 @@ def g_op(op):
 def coq_case(c):
     k = c["kind"]
     if k == "hist": return "CHist " + glist([g_op(op) for op in c["ops"]])
+    if k == "reent":
+        return ("CReent " + glist([f"({gz(u)}, {g_op(op)})" for u, op in c["scripts"]]) + " "
+                + glist([g_op(op) for op in c["ops"]]))
     if k == "scan": return f"CScan {gzlist(c['ids'])}"
     if k == "send": return f"CSend {gbool(c['bus'])} {gz(c['id'])} {gzlist(c['data'])} {gbool(c['remote'])}"
     if k == "periodic": return f"CPeriodic {gz(c['id'])} {gzlist(c['data'])} {gz(c['period'])} {gbool(c['remote'])}"
@@ -601,7 +713,7 @@ def coq_case(c):
 
 def nontrivial(c):
     k = c["kind"]
-    if k == "hist":
+    if k in ("hist", "reent"):
         armed = False
         for op in c["ops"]:
             if op[0] in ("sub", "add"): armed = True
@@ -722,6 +834,32 @@ def gen_history(rng, nsteps, dirty):
     return dict(kind="hist", ops=ops[:nsteps])
 
 
+def gen_reentrant(rng, nsteps):
+    """A history in which 1-3 user callbacks are re-entrant: when invoked they perform one scripted
+    operation on the same network (subscribe / unsubscribe incl. themselves and 'all', remove / add /
+    replace / re-attach a node, add an SDO channel)."""
+    h = gen_history(rng, nsteps, dirty=False)
+    ops = h["ops"]
+    ids = sorted({op[1] for op in ops if op[0] in ("sub", "notify", "recv")}) or [0x123]
+    objs = [list(t) for t in sorted({tuple(op[1]) for op in ops if op[0] == "add"})] or [[1, 5, False]]
+    scripts = []
+    for u in rng.sample(range(6), rng.choice((1, 2, 2, 3))):
+        r = rng.random()
+        c = rng.choice(ids)
+        if r < 0.2: sop = ["sub", c, rng.randrange(6)]
+        elif r < 0.35: sop = ["unsub", c, ["u", u]]                       # one-shot: unsubscribes itself
+        elif r < 0.5: sop = ["unsub", c, ["u", rng.randrange(6)]]
+        elif r < 0.58: sop = ["unsub", c, None]
+        elif r < 0.8: sop = ["del", rng.choice(objs)[1]]
+        elif r < 0.93: sop = ["add", rng.choice(objs)]
+        elif r < 0.97: sop = ["reassoc", rng.choice(objs)]
+        else:
+            o = rng.choice(objs)
+            sop = ["add_sdo", o, 0x640 + o[1] % 0x40, rng.choice(ids)]
+        scripts.append([u, sop])
+    return dict(kind="reent", scripts=scripts, ops=ops)
+
+
 def boundary_ids():
     out = []
     for svc in (0, 0x80, 0x100, 0x180, 0x200, 0x280, 0x300, 0x380, 0x400, 0x480, 0x500, 0x580, 0x600, 0x680, 0x700, 0x780):
@@ -736,6 +874,8 @@ def gen_cases(rng, tier):
         cases.append(gen_history(rng, rng.choice((20, 60, 150, 300, 400)), dirty=(i % 5 == 4)))
     for i in range(n_long):
         cases.append(gen_history(rng, {"quick": 700, "thorough": 3000, "search": 600}[tier], dirty=(i % 4 == 3)))
+    for i in range({"quick": 60, "thorough": 300, "search": 100}[tier]):
+        cases.append(gen_reentrant(rng, rng.choice((20, 40, 80, 150, 300))))
     # ---- scanner
     all11 = list(range(2048))
     cases.append(dict(kind="scan", ids=all11))
@@ -814,9 +954,9 @@ def gen_cases(rng, tier):
 def _spread(cases, chunk=300):
     """Deal the long (history) cases over the generated Coq case files (runs of `chunk` consecutive
     modelled cases, evaluated in parallel) so that the files have similar sizes; deterministic."""
-    heavy = [c for c in cases if c["kind"] == "hist"]
-    light = [c for c in cases if c["kind"] != "hist" and c.get("model", True)]
-    rest = [c for c in cases if c["kind"] != "hist" and not c.get("model", True)]
+    heavy = [c for c in cases if c["kind"] in ("hist", "reent")]
+    light = [c for c in cases if c["kind"] not in ("hist", "reent") and c.get("model", True)]
+    rest = [c for c in cases if c["kind"] not in ("hist", "reent") and not c.get("model", True)]
     nb = max(1, -(-(len(heavy) + len(light)) // chunk))
     bins = [[] for _ in range(nb)]
     load = [0] * nb
@@ -836,7 +976,10 @@ def _spread(cases, chunk=300):
 
 # ------------------------------------------------------------------ shrinking / neighbours
 def shrink(c):
-    if c["kind"] == "hist":
+    if c["kind"] == "reent":
+        for i in range(len(c["scripts"])):
+            yield dict(c, scripts=c["scripts"][:i] + c["scripts"][i + 1:])
+    if c["kind"] in ("hist", "reent"):
         ops = c["ops"]
         n = len(ops)
         k = n // 2
